@@ -162,3 +162,6 @@ EXPLANATION = "under construction"
 ASSUMPTIONS = []
 TRUSTED = []
 BOUNDED = [{"name": "class-families-and-specs", "script": "bounded/b14_class_path.py"}]
+
+from contracts.import_paths import units as import_path_units  # noqa: E402
+UNITS += import_path_units("C14")
